@@ -22,12 +22,15 @@ MANIFEST = {
     "text": "PARTIAL. Explicit-heap Coq model of the library's copy-then-mutate mechanisms (every container-handling "
             "Property.clean incl. ObservableProperty/ExtensionsProperty, _STIXBase.__init__ with dict/list kwargs, "
             "dict_to_stix2, parse_observable, new_version/revoke, expand/compress/add/clear granular markings, object "
-            "markings, Bundle, ObjectFactory.create, MemoryStore _add, __deepcopy__, __setattr__) with class tables "
+            "markings, Bundle, MarkingDefinition.__init__, ObjectFactory.create, MemoryStore _add, __deepcopy__, __setattr__) "
+            "with class tables, property defaults and the list of classes overriding __init__ "
             "regenerated from the live classes each run. Theorems for ALL heaps/arguments/class tables: no pre-existing "
             "heap node is written (frame) by any modelled operation (store: only its own table), hence all deep values "
             "are kept; deepcopy yields an equal value in all-new containers; setattr on any property name is refused, "
             "no property name of the repository is private, delattr of a property is refused; the frame theorem is "
-            "refuted for the variants without the defensive copies. Model tied to the code by an aliasing "
+            "refuted for the variants without the defensive copies; the frame holds for every operation of the case "
+            "language and for every finite HISTORY of operations from any starting heap (values defined at any "
+            "step are kept at every later step). Model tied to the code by an aliasing "
             "correspondence (same operation sequences on model and library: mutation set and argument/result "
             "sharing compared per operation). All other public operations x argument shapes are covered only by the "
             "before/after snapshot oracle (testing, labelled as such in the evidence).",
